@@ -25,6 +25,33 @@ class AnalysisError(Exception):
     """The analyser cannot decide (anchor vanished, parse failure, instance count below the confirmed minimum)."""
 
 
+class IdiomNotRecognised(AnalysisError):
+    """
+    The anchor exists but the roles of its parts (which attribute is the pool, which routine commits, ..) cannot be derived from
+    how the code is written now.  The rules that need these roles are UNDECIDED (reported, exit 0): an unrecognised way of writing
+    the mechanism is not evidence that the property is broken.  A vanished anchor (file / class / function named by the property)
+    stays an AnalysisError (exit 2).
+    """
+
+
+def tolerant(rule: str):
+    """decorator for a rule set `f(.., rep, ..)`: an IdiomNotRecognised inside it becomes one undecided obligation of `rule`"""
+    def deco(fn):
+        def wrapper(*args, **kwargs):
+            try:
+                return fn(*args, **kwargs)
+            except IdiomNotRecognised as e:
+                rep = next((a for a in list(args) + list(kwargs.values()) if isinstance(a, Report)), None)
+                if rep is None:
+                    raise
+                rep.ob(rule, None, Loc("jellyfysh", 0, fn.__name__), fn.__name__, f"idiom not recognised: {e}")
+                return None
+        wrapper.__name__ = fn.__name__
+        wrapper.__doc__ = fn.__doc__
+        return wrapper
+    return deco
+
+
 class Source:
     """
     Read-only view of the repository working tree. An overlay (relative path -> replacement text) lets the self-test
@@ -223,7 +250,10 @@ class Report:
 
     def check_minimums(self) -> None:
         for rule, n in self.minimums.items():
-            got = self.decided_counts.get(rule, 0)
+            und = [u for u in self.undecided if u.get("rule") == rule]
+            if any(u.get("why", "").startswith("idiom not recognised") for u in und):
+                continue      # reported as undecided: the mechanism is written in a way the rule does not follow
+            got = self.decided_counts.get(rule, 0) + len(und)
             if got < n:
                 raise AnalysisError(f"rule {rule}: only {got} instances decided, {n} confirmed by hand on the pinned tree"
                                     f" (anchor vanished or idiom not recognised)")
